@@ -1,7 +1,470 @@
 package main
 
 // Replay of counterexamples against the real code (go test -overlay).
+//
+// Scope (stated in DESIGN.md, Part IV): package-level functions whose
+// parameters are machine integers, booleans, strings or byte slices. For such
+// a function, when a solver returns a model for a failed obligation, the
+// parameter values are read off the model, an in-package test that calls the
+// real function with them is injected through `go test -overlay` (nothing is
+// written to /repo), and
+//   - for a safety obligation (index, nil, slice, make, division, explicit
+//     panic, type assertion) the violation is confirmed when the real run
+//     panics;
+//   - for a postcondition it is confirmed when the real run returns exactly
+//     the result values of the model (on which the solver evaluated the
+//     clause to false) and the clause mentions no uninterpreted specification
+//     function.
+// Everything else is reported without a failing input.
+
+import (
+	"encoding/json"
+	"fmt"
+	"go/types"
+	"os"
+	"os/exec"
+	"path/filepath"
+	"regexp"
+	"strconv"
+	"strings"
+	"time"
+
+	"golang.org/x/tools/go/ssa"
+)
+
+type replayVal struct {
+	kind string // int | bool | string | bytes
+	i    int64
+	b    bool
+	s    []byte
+	typ  types.Type
+}
+
+func replayable(t types.Type) string {
+	switch u := t.Underlying().(type) {
+	case *types.Basic:
+		switch {
+		case u.Info()&types.IsInteger != 0:
+			return "int"
+		case u.Info()&types.IsBoolean != 0:
+			return "bool"
+		case u.Info()&types.IsString != 0:
+			return "string"
+		}
+	case *types.Slice:
+		if b, ok := u.Elem().Underlying().(*types.Basic); ok && b.Kind() == types.Uint8 {
+			return "bytes"
+		}
+	}
+	return ""
+}
+
+var numRe = regexp.MustCompile(`\(- (\d+)\)|(-?\d+)|(true|false)`)
+
+// getValues asks z3 for the values of the given terms in a model of q.
+func getValues(q string, terms []string, timeout time.Duration) ([]string, bool) {
+	if len(terms) == 0 {
+		return nil, true
+	}
+	var b strings.Builder
+	b.WriteString("(set-option :produce-models true)\n")
+	b.WriteString(q)
+	for _, t := range terms {
+		b.WriteString("(get-value (" + t + "))\n")
+	}
+	n := time.Now().UnixNano()
+	file := filepath.Join(workDir, fmt.Sprintf("rv%d.smt2", n))
+	os.WriteFile(file, []byte(b.String()), 0o644)
+	defer os.Remove(file)
+	out, _ := exec.Command("z3-new", fmt.Sprintf("-t:%d", int(timeout/time.Millisecond)), file).CombinedOutput()
+	lines := strings.Split(strings.TrimSpace(string(out)), "\n")
+	if len(lines) == 0 || strings.TrimSpace(lines[0]) != "sat" {
+		return nil, false
+	}
+	var vals []string
+	for _, l := range lines[1:] {
+		l = strings.TrimSpace(l)
+		if !strings.HasPrefix(l, "((") {
+			continue
+		}
+		// ((term value))  - the value is the last balanced item
+		l = strings.TrimSuffix(l, "))")
+		idx := strings.LastIndex(l, " ")
+		v := l[idx+1:]
+		if strings.HasSuffix(l, ")") { // (- n)
+			if j := strings.LastIndex(l, "(- "); j >= 0 {
+				v = l[j:]
+			}
+		}
+		vals = append(vals, v)
+	}
+	if len(vals) != len(terms) {
+		return nil, false
+	}
+	return vals, true
+}
+
+func parseInt(v string) (int64, bool) {
+	m := numRe.FindStringSubmatch(v)
+	if m == nil {
+		return 0, false
+	}
+	if m[1] != "" {
+		n, err := strconv.ParseInt(m[1], 10, 64)
+		return -n, err == nil
+	}
+	if m[2] != "" {
+		n, err := strconv.ParseInt(m[2], 10, 64)
+		return n, err == nil
+	}
+	return 0, false
+}
+
+// modelValue reads the value of term (of Go type typ) from a model of q.
+func modelValue(q, term string, typ types.Type, memTerm string) (*replayVal, bool) {
+	kind := replayable(typ)
+	to := 10 * time.Second
+	switch kind {
+	case "int":
+		vs, ok := getValues(q, []string{term}, to)
+		if !ok {
+			return nil, false
+		}
+		n, ok := parseInt(vs[0])
+		return &replayVal{kind: kind, i: n, typ: typ}, ok
+	case "bool":
+		vs, ok := getValues(q, []string{term}, to)
+		if !ok {
+			return nil, false
+		}
+		return &replayVal{kind: kind, b: strings.Contains(vs[0], "true"), typ: typ}, true
+	case "string":
+		vs, ok := getValues(q, []string{"(strlen " + term + ")"}, to)
+		if !ok {
+			return nil, false
+		}
+		n, ok := parseInt(vs[0])
+		if !ok || n < 0 || n > 4096 {
+			return nil, false
+		}
+		var ts []string
+		for i := int64(0); i < n; i++ {
+			ts = append(ts, fmt.Sprintf("(strat %s %d)", term, i))
+		}
+		cs, ok := getValues(q+fmt.Sprintf("(assert (= (strlen %s) %d))\n(check-sat)\n", term, n), ts, to)
+		if !ok && n > 0 {
+			return nil, false
+		}
+		rv := &replayVal{kind: kind, typ: typ}
+		for _, c := range cs {
+			x, ok := parseInt(c)
+			if !ok {
+				return nil, false
+			}
+			rv.s = append(rv.s, byte(x))
+		}
+		return rv, true
+	case "bytes":
+		vs, ok := getValues(q, []string{"(slen " + term + ")", "(sptr " + term + ")", "(soff " + term + ")"}, to)
+		if !ok {
+			return nil, false
+		}
+		n, ok := parseInt(vs[0])
+		if !ok || n < 0 || n > 4096 {
+			return nil, false
+		}
+		rv := &replayVal{kind: kind, typ: typ}
+		if n == 0 || memTerm == "" {
+			return rv, n == 0
+		}
+		var ts []string
+		for i := int64(0); i < n; i++ {
+			ts = append(ts, fmt.Sprintf("(select (select %s (sptr %s)) (+ (soff %s) %d))", memTerm, term, term, i))
+		}
+		cs, ok := getValues(q+fmt.Sprintf("(assert (= (slen %s) %d))\n(check-sat)\n", term, n), ts, to)
+		if !ok {
+			return nil, false
+		}
+		for _, c := range cs {
+			x, ok := parseInt(c)
+			if !ok {
+				return nil, false
+			}
+			rv.s = append(rv.s, byte(x))
+		}
+		return rv, true
+	}
+	return nil, false
+}
+
+func (v *replayVal) goLit(qual types.Qualifier) string {
+	ts := types.TypeString(v.typ, qual)
+	switch v.kind {
+	case "int":
+		return fmt.Sprintf("%s(%d)", ts, v.i)
+	case "bool":
+		return fmt.Sprintf("%s(%v)", ts, v.b)
+	case "string":
+		return fmt.Sprintf("%s(%q)", ts, string(v.s))
+	case "bytes":
+		if v.s == nil {
+			return fmt.Sprintf("%s(nil)", ts)
+		}
+		return fmt.Sprintf("%s(%q)", ts, string(v.s))
+	}
+	return "nil"
+}
+
+func (v *replayVal) show() string {
+	switch v.kind {
+	case "int":
+		return fmt.Sprint(v.i)
+	case "bool":
+		return fmt.Sprint(v.b)
+	}
+	return fmt.Sprintf("%q", string(v.s))
+}
+
+var panicKinds = map[string]bool{"bounds": true, "nonnil": true, "slice": true, "make-size": true, "div-zero": true, "panic-unreachable": true, "type-assert": true, "map-nil": true, "chan-open": true}
 
 func replayObligation(P *Prog, repo, prop, name string, o *Obligation, rf map[string]any) bool {
-	return false
+	fx := o.fx
+	if fx == nil || fx.fn == nil {
+		return false
+	}
+	fn := fx.fn
+	if fn.Signature.Recv() != nil || fn.Parent() != nil || fn.Pkg == nil || len(fn.Params) == 0 {
+		return false
+	}
+	for _, p := range fn.Params {
+		if replayable(p.Type()) == "" {
+			return false
+		}
+	}
+	isPanic := panicKinds[o.Kind]
+	if !isPanic && o.Kind != "ensures" {
+		return false
+	}
+	if !isPanic {
+		// the clause must be evaluable from inputs and outputs alone
+		for n := range P.Specs.SpecFns {
+			if strings.Contains(o.Goal, "spec."+n+" ") || strings.Contains(o.Goal, "(spec."+n+")") {
+				return false
+			}
+		}
+		if strings.Contains(o.Goal, "ghost.") {
+			return false
+		}
+	}
+	extra := fx.finalizeAxioms()
+	q := fx.buildQuery(o, extra)
+	if _, ok := getValues(q, []string{"0"}, 10*time.Second); !ok {
+		// try the quantifier-free relaxation (a candidate only; the real run decides)
+		if rq := fx.buildQueryMode(o, extra, true); rq != "" {
+			q = rq
+		} else {
+			return false
+		}
+		if _, ok := getValues(q, []string{"0"}, 10*time.Second); !ok {
+			return false
+		}
+	}
+	memName, _ := fx.byteMem()
+	memTerm := sanitize(memName) + "@0"
+	if !strings.Contains(q, "(declare-const "+memTerm+" ") {
+		memTerm = ""
+	}
+	// pin each value once read, so that later reads come from the same model
+	var args []*replayVal
+	for _, p := range fn.Params {
+		term := "p." + sanitize(p.Name())
+		v, ok := modelValue(q, term, p.Type(), memTerm)
+		if !ok {
+			return false
+		}
+		args = append(args, v)
+		switch v.kind {
+		case "int":
+			q += fmt.Sprintf("(assert (= %s %s))\n(check-sat)\n", term, intLit(v.i))
+		case "bool":
+			q += fmt.Sprintf("(assert (= %s %v))\n(check-sat)\n", term, v.b)
+		case "string":
+			q += fmt.Sprintf("(assert (= (strlen %s) %d))\n", term, len(v.s))
+			for i, c := range v.s {
+				q += fmt.Sprintf("(assert (= (strat %s %d) %d))\n", term, i, c)
+			}
+			q += "(check-sat)\n"
+		case "bytes":
+			q += fmt.Sprintf("(assert (= (slen %s) %d))\n", term, len(v.s))
+			for i, c := range v.s {
+				q += fmt.Sprintf("(assert (= (select (select %s (sptr %s)) (+ (soff %s) %d)) %d))\n", memTerm, term, term, i, c)
+			}
+			q += "(check-sat)\n"
+		}
+	}
+	// expected results (postconditions only)
+	rs := fn.Signature.Results()
+	var want []*replayVal
+	if !isPanic {
+		if len(o.Results) != rs.Len() {
+			return false
+		}
+		for i := 0; i < rs.Len(); i++ {
+			if replayable(rs.At(i).Type()) == "" {
+				want = append(want, nil)
+				continue
+			}
+			v, ok := modelValue(q, o.Results[i], rs.At(i).Type(), "")
+			if !ok {
+				return false
+			}
+			want = append(want, v)
+		}
+	}
+	// the test
+	pkg := fn.Pkg.Pkg
+	qual := func(p *types.Package) string {
+		if p == pkg {
+			return ""
+		}
+		return p.Name()
+	}
+	var src strings.Builder
+	src.WriteString("package " + pkg.Name() + "\n\nimport (\n\t\"fmt\"\n\t\"testing\"\n)\n\n")
+	src.WriteString("func TestGvcReplay(t *testing.T) {\n")
+	src.WriteString("\tdefer func() {\n\t\tif r := recover(); r != nil {\n\t\t\tfmt.Printf(\"GVCREPLAY PANIC %v\\n\", r)\n\t\t}\n\t}()\n")
+	var lits []string
+	for _, a := range args {
+		lits = append(lits, a.goLit(qual))
+	}
+	call := fn.Name() + "(" + strings.Join(lits, ", ") + ")"
+	if rs.Len() == 0 {
+		src.WriteString("\t" + call + "\n\tfmt.Println(\"GVCREPLAY RETURNED\")\n")
+	} else {
+		var rn []string
+		for i := 0; i < rs.Len(); i++ {
+			rn = append(rn, fmt.Sprintf("r%d", i))
+		}
+		src.WriteString("\t" + strings.Join(rn, ", ") + " := " + call + "\n\tfmt.Println(\"GVCREPLAY RETURNED\")\n")
+		for i := 0; i < rs.Len(); i++ {
+			switch replayable(rs.At(i).Type()) {
+			case "int", "bool":
+				src.WriteString(fmt.Sprintf("\tfmt.Printf(\"GVCREPLAY R%d %%v\\n\", r%d)\n", i, i))
+			case "string", "bytes":
+				src.WriteString(fmt.Sprintf("\tfmt.Printf(\"GVCREPLAY R%d %%q\\n\", string(r%d))\n", i, i))
+			default:
+				src.WriteString(fmt.Sprintf("\t_ = r%d\n", i))
+			}
+		}
+	}
+	src.WriteString("}\n")
+	var inputs []string
+	for i, a := range args {
+		inputs = append(inputs, fn.Params[i].Name()+"="+a.show())
+	}
+	rf["replay_function"] = fn.String()
+	rf["replay_inputs"] = inputs
+	rf["replay_test_package"] = pkg.Path()
+	rf["replay_test_source"] = src.String()
+	var wantS []string
+	for i, w := range want {
+		if w != nil {
+			wantS = append(wantS, fmt.Sprintf("R%d %s", i, w.show()))
+		}
+	}
+	rf["replay_model_results"] = wantS
+	rf["replay_mode"] = map[bool]string{true: "panic", false: "results"}[isPanic]
+	out, confirmed := runReplay(repo, pkg.Path(), P.ModPath, src.String(), isPanic, wantS)
+	rf["replay_output"] = out
+	rf["replay_confirmed"] = confirmed
+	return confirmed
 }
+
+// runReplay injects the test through an overlay and runs it.
+func runReplay(repo, pkgPath, modPath, src string, isPanic bool, want []string) (string, bool) {
+	rel := strings.TrimPrefix(strings.TrimPrefix(pkgPath, modPath), "/")
+	dir := filepath.Join(repo, rel)
+	tmp := filepath.Join(workDir, fmt.Sprintf("replay-%d", time.Now().UnixNano()))
+	os.MkdirAll(tmp, 0o755)
+	defer os.RemoveAll(tmp)
+	testFile := filepath.Join(tmp, "zz_gvc_replay_test.go")
+	os.WriteFile(testFile, []byte(src), 0o644)
+	ov := map[string]map[string]string{"Replace": {filepath.Join(dir, "zz_gvc_replay_test.go"): testFile}}
+	ob, _ := json.Marshal(ov)
+	ovFile := filepath.Join(tmp, "overlay.json")
+	os.WriteFile(ovFile, ob, 0o644)
+	cmd := exec.Command("go", "test", "-overlay", ovFile, "-vet=off", "-count=1", "-timeout", "60s", "-run", "^TestGvcReplay$", "-v", ".")
+	cmd.Dir = dir
+	cmd.Env = append(os.Environ(), "GOFLAGS=-mod=mod", "GOPROXY=off", "GOSUMDB=off", "GOTOOLCHAIN=local")
+	outb, _ := cmd.CombinedOutput()
+	var lines []string
+	for _, l := range strings.Split(string(outb), "\n") {
+		if strings.HasPrefix(l, "GVCREPLAY") {
+			lines = append(lines, strings.TrimSpace(l))
+		}
+	}
+	out := strings.Join(lines, "\n")
+	if len(lines) == 0 {
+		return truncate(string(outb), 600), false
+	}
+	if isPanic {
+		return out, strings.Contains(out, "GVCREPLAY PANIC")
+	}
+	if strings.Contains(out, "GVCREPLAY PANIC") || len(want) == 0 {
+		return out, false
+	}
+	for _, w := range want {
+		found := false
+		for _, l := range lines {
+			if l == "GVCREPLAY "+w {
+				found = true
+			}
+		}
+		if !found {
+			return out, false
+		}
+	}
+	return out, true
+}
+
+// cmdReplay re-runs a stored replay file.
+func cmdReplay(args []string) int {
+	if len(args) < 1 {
+		fmt.Println("usage: gvc replay <file>")
+		return 2
+	}
+	b, err := os.ReadFile(args[0])
+	if err != nil {
+		fmt.Println(err)
+		return 2
+	}
+	var rf map[string]any
+	if err := json.Unmarshal(b, &rf); err != nil {
+		fmt.Println(err)
+		return 2
+	}
+	fmt.Printf("obligation: %v\nstatus: %v\nclause: %v\n", rf["obligation"], rf["status"], rf["clause"])
+	src, _ := rf["replay_test_source"].(string)
+	if src == "" {
+		fmt.Println("no failing input was found for this obligation; the verifier's output is in the file (solver_output, model)")
+		return 0
+	}
+	initWork()
+	defer cleanupWork()
+	pkg, _ := rf["replay_test_package"].(string)
+	var want []string
+	if ws, ok := rf["replay_model_results"].([]any); ok {
+		for _, w := range ws {
+			want = append(want, fmt.Sprint(w))
+		}
+	}
+	mod := "github.com/creachadair/jrpc2"
+	out, ok := runReplay("/repo", pkg, mod, src, rf["replay_mode"] == "panic", want)
+	fmt.Printf("inputs: %v\n%s\nconfirmed on the current tree: %v\n", rf["replay_inputs"], out, ok)
+	if ok {
+		return 1
+	}
+	return 0
+}
+
+var _ = ssa.Function{}
